@@ -1,10 +1,89 @@
-(* Property C01 -- statements only (proofs in Proofs/ExecProofs.v). *)
-From Coq Require Import List String.
-From GQL Require Import Exec.Syntax Exec.Coerce Exec.Exec Exec.Request Proofs.ExecProofs.
-Import ListNotations.
+(* Property C01 -- execution returns the response the GraphQL execution algorithm prescribes.
+   Statements only; proofs in Proofs/{CollectProofs,PlanCollectProofs,ExecProofs}.v.
 
-(* A failure is absorbed exactly at nullable positions: completing at a nullable type never raises. *)
+   Exec/Exec.v is the execution algorithm (CollectFields, ExecuteSelectionSet, ExecuteField,
+   CompleteValue with null propagation) over an oracle for resolver outcomes; the Go executor
+   is compared with it on every generated request (Run/ExecRun.v, kind 1: data tree, error
+   multiset with paths and locations, resolver calls with coerced arguments).
+   Exec/PlanCollect.v models what is specific to plan.go: collection in two phases. *)
+From Coq Require Import List String Bool NArith.
+From GQL Require Import Exec.Syntax Exec.Coerce Exec.Exec Exec.PlanCollect Exec.Request
+     Proofs.CollectProofs Proofs.PlanCollectProofs Proofs.ExecProofs.
+Import ListNotations.
+Open Scope string_scope.
+
+(* The planner's two-phase collection (plan-time folding of literal @skip/@include, levels with a
+   variable-driven directive collected again at execute time) is CollectFields, for every
+   selection set, fragment table and variable assignment. *)
+Theorem C01_two_phase_collect : forall fuel S D vars obj sels g,
+  two_phase_collect fuel S D vars obj sels = Some g ->
+  exists v, collect fuel S D vars obj sels [] [] = Some (g, v).
+Proof. exact two_phase_is_collect. Qed.
+Print Assumptions C01_two_phase_collect.
+
+(* A plan-time result that saw no variable-driven directive serves every request. *)
+Theorem C01_static_plan_sound : forall fuel S D obj sels visited g saw g' v',
+  plan_collect fuel S D obj sels visited g saw = Some (g', v', false) ->
+  forall vars, collect fuel S D vars obj sels visited g = Some (g', v').
+Proof. exact plan_collect_static. Qed.
+Print Assumptions C01_static_plan_sound.
+
+(* Only included occurrences whose type conditions match are executed under a response key
+   (@skip/@include evaluated at every occurrence, spread and inline fragment). *)
+Theorem C01_collect_sound : forall fuel S D vars obj sels g' v',
+  collect fuel S D vars obj sels [] [] = Some (g', v') ->
+  forall k o, in_group g' k o -> Occurs S D vars obj sels k o.
+Proof.
+  intros fuel S D vars obj sels g' v' H k o Hin.
+  destruct (collect_sound _ _ _ _ _ _ _ _ _ _ H k o Hin) as [[os [[] _]]|Ho]. exact Ho.
+Qed.
+Print Assumptions C01_collect_sound.
+
+(* Every included occurrence reached without a named spread is collected: a response key is
+   present when one of its occurrences is included.  (Through named spreads the visited-set
+   argument is not proved yet; that part is covered by the correspondence only.) *)
+Theorem C01_collect_complete_partial : forall fuel S D vars obj sels visited g g' v',
+  collect fuel S D vars obj sels visited g = Some (g', v') ->
+  forall k o, OccursDirect S vars obj sels k o -> in_group g' k o.
+Proof. exact collect_complete_direct. Qed.
+Print Assumptions C01_collect_complete_partial.
+
+(* Each response key is executed once per object: the groups' keys are unique. *)
+Theorem C01_keys_unique : forall fuel S D vars obj sels g' v',
+  collect fuel S D vars obj sels [] [] = Some (g', v') -> NoDup (map fst g').
+Proof.
+  intros. eapply collect_keys_nodup; [eassumption|constructor].
+Qed.
+Print Assumptions C01_keys_unique.
+
+(* A failure is absorbed exactly at nullable positions: completing at a nullable type never raises,
+   so nulls propagate out of non-null positions only. *)
 Theorem C01_catch_nullable : forall t r, is_nonnull t = false ->
   forall e s, catch_at t r <> XRaise e s.
 Proof. exact catch_at_nullable. Qed.
 Print Assumptions C01_catch_nullable.
+
+Local Open Scope N_scope.
+(* ---- non-vacuity: a document with a duplicated key across a fragment and a variable @skip;
+        both verdicts of the directive are exercised ---- *)
+Definition S1 : schema := {|
+  s_types := [("String", TScalar SString); ("Boolean", TScalar SBoolean);
+              ("Q", TObject [{| f_name := "a"; f_args := []; f_type := TNamed "String" |};
+                             {| f_name := "b"; f_args := []; f_type := TNamed "String" |}] [])];
+  s_query := "Q"; s_mutation := None |}.
+Definition D1 : document := {|
+  d_ops := [];
+  d_frags := [{| fr_name := "F"; fr_cond := "Q"; fr_sel := [SField 40 None "a" [] [] []] |}] |}.
+Definition sels1 : list selection :=
+  [SField 2 None "a" [] [{| d_name := "skip"; d_args := [("if", VVar "v")] |}] [];
+   SSpread 20 "F" []; SField 30 None "b" [] [] []].
+
+Example C01_nonvacuous :
+  two_phase_collect 20%nat S1 D1 [("v", JBool true)] "Q" sels1
+  = Some [("a", [{| oc_id := 40; oc_name := "a"; oc_args := []; oc_sub := [] |}]);
+          ("b", [{| oc_id := 30; oc_name := "b"; oc_args := []; oc_sub := [] |}])] /\
+  two_phase_collect 20%nat S1 D1 [("v", JBool false)] "Q" sels1
+  = Some [("a", [{| oc_id := 2; oc_name := "a"; oc_args := []; oc_sub := [] |};
+                 {| oc_id := 40; oc_name := "a"; oc_args := []; oc_sub := [] |}]);
+          ("b", [{| oc_id := 30; oc_name := "b"; oc_args := []; oc_sub := [] |}])].
+Proof. split; reflexivity. Qed.
